@@ -130,14 +130,18 @@ class _CondMarker:
 
 def _rat_conj(r):
     """Complex conjugation on the symbolic domain: factor symbols a -> a* (involution); argument symbols u<k> are real."""
-    from ..absint import Rat
+    from ..absint import IMAG, Rat
 
     def cpoly(p):
         out = {}
         for mono, c in p.items():
             m2 = []
             for v, k in mono:
-                if v.startswith("u"):
+                if v == IMAG:
+                    m2.append((v, k))
+                    if k % 2:
+                        c = -c
+                elif v.startswith("u"):
                     m2.append((v, k))
                 elif v.endswith("*"):
                     m2.append((v[:-1], k))
@@ -147,6 +151,12 @@ def _rat_conj(r):
         return out
 
     return Rat(cpoly(r.num), cpoly(r.den))
+
+
+def Rat_s():
+    from ..absint import Rat
+
+    return Rat.var("s")
 
 
 def _fact_run(repo, handler_name, fac_spec, sf_spec, cond_value=None):
@@ -192,8 +202,9 @@ def _fact_run(repo, handler_name, fac_spec, sf_spec, cond_value=None):
         d = {}
         mean = Rat.const(0)
         for key, sym in spec.items():
-            d[key] = insert(F, Rat.var(sym))
-            mean = mean + Rat.var(sym) * argprod(key)
+            val = sym if isinstance(sym, Rat) else Rat.var(sym)
+            d[key] = insert(F, val)
+            mean = mean + val * argprod(key)
         fac.append(d)
         if not spec:
             mean = sfx if isinstance(sfx, Rat) else None
@@ -289,35 +300,32 @@ def conj_law(repo, res):
     m = repo.mod(FACT)
     f = m.func("handle_conj")
     res.functions.add(f.key)
-    loops = [n for n in ast.walk(f.node) if isinstance(n, ast.For) and isinstance(n.iter, ast.Name) and n.iter.id == "fac"]
-    key = f"{f.key}:law"
-    res.ob(key)
-    if len(loops) != 1 or not isinstance(loops[0].target, ast.Name):
-        raise AnalysisError("handle_conj: loop over the operand's factor map not found")
-    lp = loops[0]
-    k = lp.target.id
-    stores = [n for n in ast.walk(f.node) if isinstance(n, ast.Assign) and isinstance(n.targets[0], ast.Subscript)
-              and isinstance(n.targets[0].value, ast.Name) and n.targets[0].value.id == "factors"]
-    if not stores:
-        raise AnalysisError("handle_conj: no store into `factors`")
-    # names bound to the factor expression of key k
-    fx = {n.targets[0].id for n in ast.walk(lp) if isinstance(n, ast.Assign) and isinstance(n.targets[0], ast.Name)
-          and ast.unparse(n.value).replace('"', "'") == f"F.nodes[fac[{k}]]['expression']"}
-    for st in stores:
-        v = st.value
-        inside = any(x is st for x in ast.walk(lp))
-        ok = (inside and ast.unparse(st.targets[0].slice) == k and isinstance(v, ast.Call) and (call_name(v) or "") == "graph_insert"
-              and len(v.args) == 2 and ast.unparse(v.args[0]) == "F" and isinstance(v.args[1], ast.Call) and (call_name(v.args[1]) or "") == "Conj"
-              and len(v.args[1].args) == 1 and (ast.unparse(v.args[1].args[0]) in fx
-                                                or ast.unparse(v.args[1].args[0]).replace('"', "'") == f"F.nodes[fac[{k}]]['expression']"))
-        if not ok:
-            res.fail(key, f"handle_conj stores `{ast.unparse(v)}` under `{ast.unparse(st.targets[0].slice)}`: a factor of conj(f*arg) must be recorded as "
-                     "Conj(f) for every f - inner(u, (2+3j)*v) would otherwise be assembled with (2+3j) instead of (2-3j)", m.line(st))
+    from ..absint import Raised
+
+    from ..absint import IMAG, Rat
+
+    lit = Rat.const(2) + Rat.const(3) * Rat.var(IMAG)
+    for label, spec in (("two argument factors", {(0,): "a", (1,): "b"}), ("a complex literal factor", {(0,): "a", (1,): lit}), ("rank-2 keys", {(0, 1): "a", (0, 2): "b", (1, 2): "c"}), ("single factor", {(3,): "z"})):
+        key = f"{f.key}:law:{label}"
+        res.ob(key)
+        try:
+            got, keys, M = _fact_run(repo, "handle_conj", [spec], [None])
+        except Raised as e:
+            res.fail(key, f"handle_conj raises ({e.what}) on {spec}", m.line(f.node))
+            continue
+        want = _rat_conj(M[0])
+        if not (got == want) or sorted(keys) != sorted(spec):
+            res.fail(key, f"handle_conj on factors {spec} records factors meaning {_show(got)} under keys {keys}; conj(sum_k f_k*arg_k) = sum_k conj(f_k)*arg_k requires "
+                     f"{_show(want)}: a factor of conj(f*arg) must be recorded as Conj(f) for every f - inner(u, (2+3j)*v) would otherwise be assembled with (2+3j) "
+                     "instead of (2-3j)", m.line(f.node))
     key = f"{f.key}:scalar"
     res.ob(key)
-    s_ = ast.unparse(f.node)
-    if not re.search(r"if fac:", s_) or "raise RuntimeError" not in s_ and not re.search(r"else:\n\s+(return|raise)", s_):
-        res.fail(key, "handle_conj no longer distinguishes argument-dependent operands", m.line(f.node))
+    try:
+        got, keys, M = _fact_run(repo, "handle_conj", [{}], [Rat_s()])
+        if keys:
+            res.fail(key, f"handle_conj of an argument-free operand returns factors {keys}", m.line(f.node))
+    except Raised:
+        pass  # argument-free operands are not factorised: the caller keeps Conj(v) as a scalar
     # the table: Conj, Real, Imag handlers
     key = f"{m.name}:handler-table"
     res.ob(key)
@@ -413,110 +421,53 @@ def rule_coherence(repo, res):
     "scope that lookups fall back to. Whether a node must be (re)generated in a partition may only be "
     "decided from the scope that partition writes to: piecewise status is computed per rule (a one-point "
     "rule makes everything piecewise), so a value cached by another rule's piecewise partition must not "
-    "suppress the varying definition of this rule",
-    min_instances=4,
+    "suppress the varying definition of this rule (behavioural part: GEN-PARTITION; here: the shared piecewise scope "
+    "against the per-rule table classification)",
+    min_instances=1,
 )
 def scope_key(repo, res):
     m = repo.mod(IG)
-    gv = m.func("IntegralGenerator.get_var")
-    sv = m.func("IntegralGenerator.set_var")
-    gp = m.func("IntegralGenerator.generate_partition")
-    res.functions.update({gv.key, sv.key, gp.key})
-    s_gv = ast.unparse(gv.node)
-    s_sv = ast.unparse(sv.node)
-    s_gp = ast.unparse(gp.node)
-    key = f"{sv.key}:key"
-    res.ob(key)
-    if not re.search(r"self\.scopes\[\(?domain, quadrature_rule\)?\]\[v\] = vaccess", s_sv):
-        res.fail(key, "set_var does not store under the (domain, rule) key", m.line(sv.node))
-    key = f"{gv.key}:own-scope-first"
-    res.ob(key)
-    own = re.search(r"(\w+) = self\.scopes\[\(?domain, quadrature_rule\)?\]\.get\(v\)", s_gv)
-    if not own:
-        res.fail(key, "get_var does not look into the (domain, rule) scope first", m.line(gv.node))
-    fallback = re.search(r"self\.scopes\[\(?None, None\)?\]", s_gv) is not None
-    # the regeneration guard of generate_partition
-    key = f"{gp.key}:regeneration-guard"
-    res.ob(key)
-    guard = None
-    for n in walk_no_nested(gp.node):
-        if isinstance(n, ast.If) and any(isinstance(x, ast.Call) and (call_name(x) or "").endswith("set_var") for b in n.body for x in ast.walk(b)):
-            guard = n
-            break
-    if guard is None:
-        # maybe written as `if cached: continue`
-        for n in walk_no_nested(gp.node):
-            if isinstance(n, ast.If) and any(isinstance(b, ast.Continue) for b in n.body) and "status" not in ast.unparse(n.test):
-                guard = n
-    if guard is None:
-        raise AnalysisError("generate_partition: guard deciding whether a node is generated not found")
-    gt = ast.unparse(guard.test)
-    uses_get_var = "self.get_var(" in gt
-    if uses_get_var and fallback:
-        res.fail(key, "generate_partition decides `already generated` with get_var, which falls back to the rule-independent piecewise "
-                 "scope: a value cached by another rule's piecewise partition (e.g. sin(f) at the single point of a degree-1 rule) "
-                 "suppresses this rule's varying definition - sin(f)*v*dx(degree=1) + sin(f)*v*dx(degree=4) integrates the second "
-                 "term with f frozen at the first rule's point", m.line(guard))
-    elif not uses_get_var and "self.scopes[(domain, quadrature_rule)]" not in gt and "self.scopes[domain, quadrature_rule]" not in gt \
-            and not _guard_var_from_own_scope(gp.node, guard):
-        res.fail(key, f"generation guard `{gt}` does not consult the scope this partition writes to", m.line(guard))
-    key = f"{gp.key}:store-key"
-    res.ob(key)
-    def _bound(call, callee):
-        ps = [p_ for p_ in callee.params if p_ != "self"]
-        b_ = {ps[i]: ast.unparse(a) for i, a in enumerate(call.args) if i < len(ps)}
-        b_.update({k.arg: ast.unparse(k.value) for k in call.keywords if k.arg})
-        return b_
-
-    sv_calls = [c for c in calls_in(gp.node) if (call_name(c) or "").endswith(".set_var")]
-    ok_store = bool(sv_calls)
-    for c in sv_calls:
-        b_ = _bound(c, sv)
-        if b_.get("quadrature_rule") != "quadrature_rule" or b_.get("domain") != "domain":
-            ok_store = False
-    if not ok_store:
-        res.fail(key, "generated values are not stored under the key (domain, quadrature_rule) of the partition being generated", m.line(gp.node))
-    key = f"{gp.key}:operand-lookup"
-    res.ob(key)
-    gv_calls = [c for c in calls_in(gp.node) if (call_name(c) or "").endswith(".get_var")]
-    ok_lookup = bool(gv_calls)
-    for c in gv_calls:
-        b_ = _bound(c, gv)
-        if b_.get("quadrature_rule") != "quadrature_rule" or b_.get("domain") != "domain":
-            ok_lookup = False
-    if not ok_lookup or "ufl_operands" not in s_gp:
-        res.fail(key, "operands are not looked up in the scope (domain, quadrature_rule) of the partition being generated", m.line(gp.node))
-    init = m.func("IntegralGenerator.init_scopes")
-    key = f"{init.key}:one-scope-per-rule"
-    res.ob(key)
-    si = ast.unparse(init.node)
-    if not re.search(r"self\.scopes = \{(\w+): \{\} for \1 in self\.ir\.expression\.integrand\.keys\(\)\}", si):
-        res.fail(key, "scopes are not created per (cell, rule) key of the integrand map", m.line(init.node))
-
+    # set_var / get_var / init_scopes / generate_partition: interpreted on a two-rule sample - rule GEN-PARTITION
     # the piecewise scope is shared by all rules, but the factorisation graph whose `piecewise` nodes fill it
     # is selected per (cell, rule): sound only if `piecewise` cannot be an artefact of the rule
     pp = m.func("IntegralGenerator.generate_piecewise_partition")
     res.functions.add(pp.key)
     key = f"{pp.key}:shared-scope-vs-per-rule-classification"
     res.ob(key)
-    s_pp = ast.unparse(pp.node)
-    sel = re.search(r"self\.ir\.expression\.integrand\[\(?domain, quadrature_rule\)?\]\['factorization'\]", s_pp)
+    from ..absint import Interp, Node, Raised, _PyCall
+    from ..lnodes_model import load_classes
+    from ..npmodel import NDArr, install_arrays
+
+    it = Interp(repo, load_classes(repo), primary=IG)
+    it.obj_classes = {"IntegralGenerator": IG}
+    calls = []
+    rule_ = Node("QuadratureRule", id=_PyCall(lambda: "r1"))
+    graph = Node("ExpressionGraph", nodes={})
+    gen = Node("IntegralGenerator", ir=Node("IntegralIR", expression=Node("ExpressionIR", integrand={("triangle", rule_): {"factorization": graph}})),
+               generate_partition=_PyCall(lambda *a: calls.append(a) or ([], [])))
+    try:
+        it.call_f(pp, [gen, rule_, "triangle"])
+    except Raised as e:
+        raise AnalysisError(f"generate_piecewise_partition raises on the sample ({e.what})")
+    if len(calls) != 1 or len(calls[0]) != 5 or calls[0][1] is not graph or calls[0][2] != "piecewise":
+        raise AnalysisError("generate_piecewise_partition: call of generate_partition(symbol, F, 'piecewise', rule, domain) not recognised")
     call = [c for c in calls_in(pp.node) if (call_name(c) or "").endswith("generate_partition")]
-    if not sel or len(call) != 1 or len(call[0].args) != 5:
-        raise AnalysisError("generate_piecewise_partition: selection of F / call of generate_partition not recognised")
-    shared = all(isinstance(a, ast.Constant) and a.value is None for a in call[0].args[3:5])
+    shared = calls[0][3] is None and calls[0][4] is None
     et = repo.mod("ffcx.ir.elementtables")
-    ipt = et.func("is_piecewise_table")
     att = et.func("analyse_table_type")
-    res.functions.update({ipt.key, att.key})
-    s_ipt = ast.unparse(ipt.node)
-    # vacuous for one point: all(... for i in range(1, table.shape[2])) with no guard on the number of points
-    vacuous = re.search(r"range\(1, table\.shape\[2\]\)", s_ipt) is not None and not re.search(r"shape\[2\] (>|>=|==|!=|<|<=) ", s_ipt + ast.unparse(att.node))
+    res.functions.update({att.key})
+    # one-point table that differs between entities and dofs: `piecewise` for this rule only because the rule has a single point
+    one_point = NDArr([[[[2, 3]], [[5, 7]]]], (1, 2, 1, 2))
+    try:
+        tt = install_arrays(Interp(repo, load_classes(repo), primary="ffcx.ir.elementtables")).call_f(att, [one_point])
+    except Raised as e:
+        raise AnalysisError(f"analyse_table_type raises on a one-point table ({e.what})")
+    vacuous = tt in ("piecewise", "fixed")
     if shared and vacuous:
         res.fail(key, "the piecewise scope (None, None) is shared by all quadrature rules of an integral, but a node's `piecewise` status "
                  "comes from the tables of one rule and is_piecewise_table is vacuously true for a one-point rule: with two different "
                  "one-point rules (f*v*dx(custom point p) + f*v*dx(custom point q), f in P2) the second rule reuses f evaluated at p",
-                 m.line(call[0]))
+                 m.line(call[0]) if call else m.line(pp.node))
 
 
 def _enclosing_if(root, target):
@@ -710,6 +661,104 @@ def qmeta_flow(repo, res):
         res.fail(key, "integrands of one rule are not summed (sorted_expr_sum) per rule", rep.line(ci.node))
 
 
+
+def _quadrature_matrix(repo, res, ru, cq):
+    """create_quadrature_points_and_weights interpreted for every (integral type, cell, use_tensor_product).
+
+    `create_quadrature` is a recording stub that returns a distinct sample rule per reference cell; the
+    specification: tensor factors exist only for cell integrals on quadrilaterals / hexahedra with the
+    option on, they are one interval rule of the requested degree per direction, and the points/weights
+    are their Cartesian product; everything else is the plain rule of each integration entity type.
+    """
+    import itertools
+    from fractions import Fraction as Fr
+
+    from ..absint import Interp, Node, Raised, _PyCall
+    from ..lnodes_model import load_classes
+
+    sample = {"interval": ([[Fr(1, 4)], [Fr(3, 4)], [Fr(1, 2)]], [Fr(1, 3), Fr(1, 2), Fr(1, 6)]),
+              "vertex": ([[]], [Fr(1)])}
+    for i_, nm in enumerate(("triangle", "quadrilateral", "tetrahedron", "hexahedron", "prism", "pyramid")):
+        sample[nm] = ([[Fr(1, 7 + i_)] * 2, [Fr(2, 9 + i_)] * 2], [Fr(1, 5 + i_), Fr(4, 5 + i_)])
+    facets = {"interval": ["vertex"], "triangle": ["interval"], "quadrilateral": ["interval"], "tetrahedron": ["triangle"],
+              "hexahedron": ["quadrilateral"], "prism": ["triangle", "quadrilateral"]}
+    ridges = {"triangle": ["vertex"], "quadrilateral": ["vertex"], "tetrahedron": ["interval"], "hexahedron": ["interval"], "prism": ["interval"]}
+    itypes = ["cell", "exterior_facet", "interior_facet", "vertex", "ridge", "expression"]
+
+    def plain(v):
+        if isinstance(v, tuple):
+            return tuple(plain(x) for x in v)
+        if isinstance(v, list):
+            return [plain(x) for x in v]
+        return v
+
+    for itype in itypes:
+        for cname in facets:
+            if itype == "ridge" and cname not in ridges:
+                continue
+            for tp in (False, True):
+                key = f"{cq.key}:rule[{itype},{cname},tensor={tp}]"
+                res.ob(key)
+                calls = []
+
+                def create_quadrature(cellname, degree, rule, elements, _c=calls):
+                    _c.append((cellname, degree, rule, plain(elements)))
+                    pts, wts = sample[cellname]
+                    return ([list(p_) for p_ in pts], list(wts))
+
+                it = Interp(repo, load_classes(repo), primary="ffcx.ir.representationutils")
+                it.overrides["create_quadrature"] = _PyCall(create_quadrature)
+                it.overrides["np.array"] = _PyCall(lambda x, **k: plain(x))
+                it.overrides["np.asarray"] = _PyCall(lambda x, **k: plain(x))
+
+                def prod(x):
+                    out = Fr(1)
+                    for v in x:
+                        out *= v
+                    return out
+                it.overrides["np.prod"] = _PyCall(prod)
+                it.overrides["itertools.product"] = _PyCall(lambda *its: [tuple(x) for x in itertools.product(*[list(i) for i in its])])
+                it.overrides["ufl.measure.facet_integral_types"] = ("exterior_facet", "interior_facet")
+                it.overrides["ufl.measure.ridge_integral_types"] = ("ridge",)
+                it.overrides["ufl.measure.point_integral_types"] = ("vertex",)
+                it.overrides["ufl.custom_integral_types"] = ("cutcell", "interface", "overlap", "custom")
+                it.overrides["logger"] = Node("Logger", exception=_PyCall(lambda *a: None), info=_PyCall(lambda *a: None))
+                cell = Node("Cell", cellname=cname, facet_types=[Node("Cell", cellname=f_) for f_ in facets[cname]],
+                            ridge_types=[Node("Cell", cellname=r_) for r_ in ridges.get(cname, [])])
+                try:
+                    out = it.call_f(cq, [itype, cell, 3, "default", ["el"]], {"use_tensor_product": tp})
+                    pts, wts, tf = plain(out[0]), plain(out[1]), plain(out[2])
+                except Raised as e:
+                    res.fail(key, f"create_quadrature_points_and_weights({itype!r}, {cname}, use_tensor_product={tp}) raises ({e.what})", ru.line(cq.node))
+                    continue
+                ents = {"cell": [cname], "exterior_facet": facets[cname], "interior_facet": facets[cname], "vertex": ["vertex"],
+                        "ridge": ridges.get(cname, []), "expression": []}[itype]
+                if any(c_[1:] != (3, "default", ["el"]) for c_ in calls):
+                    res.fail(key, f"the rule is not built for the requested degree / scheme / elements: create_quadrature called with {calls[:2]}", ru.line(cq.node))
+                ndir = {"quadrilateral": 2, "hexahedron": 3}.get(cname)
+                if itype == "cell" and tp and ndir:
+                    ip, iw = sample["interval"]
+                    want_tf = {cname: [(plain(ip), plain(iw))] * ndir}
+                    want_p = {cname: [tuple(q_[0] for q_ in c_) for c_ in itertools.product(*[ip] * ndir)]}
+                    want_w = {cname: [prod(c_) for c_ in itertools.product(*[iw] * ndir)]}
+                    got_tf = {k_: [(plain(f_[0]), plain(f_[1])) for f_ in v_] for k_, v_ in dict(tf).items()}
+                    if got_tf != want_tf:
+                        res.fail(key, f"the 1D factors are not one interval rule per direction ({ndir} for a {cname}) of the requested degree: "
+                                 f"{ {k_: len(v_) for k_, v_ in got_tf.items()} } factor(s), built from {[c_[0] for c_ in calls]}", ru.line(cq.node))
+                    elif {k_: [tuple(q_) for q_ in v_] for k_, v_ in dict(pts).items()} != want_p or dict(wts) != want_w:
+                        res.fail(key, "tensor-product points/weights are not the Cartesian product of the 1D rule (the generated tensor then "
+                                 "differs from the one the plain rule integrates)", ru.line(cq.node))
+                    continue
+                if dict(tf):
+                    res.fail(key, f"tensor-product quadrature is not restricted to cell integrals on quadrilaterals / hexahedra with the option on: "
+                             f"({itype}, {cname}, use_tensor_product={tp}) gets tensor factors for {sorted(dict(tf))}", ru.line(cq.node))
+                want_p = {e_: plain(sample[e_][0]) for e_ in ents}
+                want_w = {e_: plain(sample[e_][1]) for e_ in ents}
+                if dict(pts) != want_p or dict(wts) != want_w:
+                    res.fail(key, f"({itype}, {cname}, use_tensor_product={tp}): rules for {sorted(dict(pts))} built from {[c_[0] for c_ in calls]}; "
+                             f"the integration entities are {ents}, each with its own reference rule", ru.line(cq.node))
+
+
 @rule(
     "OPT-GATE",
     ["C10"],
@@ -754,24 +803,9 @@ def opt_gate(repo, res):
                          "same tensor as without the option", am.line(n))
     ru = repo.mod("ffcx.ir.representationutils")
     cq = ru.func("create_quadrature_points_and_weights")
-    key = f"{cq.key}:tensor-rule-gate"
-    res.ob(key)
-    s = ast.unparse(cq.node)
-    if not re.search(r"if integral_type == 'cell':\n\s+cell_name = cell\.cellname\n\s+if cell_name in \['quadrilateral', 'hexahedron'\] and use_tensor_product:", s):
-        res.fail(key, "tensor-product quadrature is not restricted to cell integrals on quadrilaterals / hexahedra", ru.line(cq.node))
+    _quadrature_matrix(repo, res, ru, cq)
     rep = repo.mod("ffcx.ir.representation")
-    g = rep.func("_group_integrands_by_quadrature_rule")
-    key = f"{g.key}:cell-only"
-    res.ob(key)
-    if "use_sum_factorization = sum_factorization and integral_type == 'cell'" not in ast.unparse(g.node):
-        res.fail(key, "sum factorisation is not restricted to cell integrals when the rule is built", rep.line(g.node))
-    # tensor-product rule points/weights are the product rule (same tensor as the plain rule would integrate)
-    key = f"{cq.key}:product-rule"
-    res.ob(key)
-    if not (re.search(r"itertools\.product\(\*\[f\[0\] for f in tensor_factors\[cell_name\]\]\)", s) and re.search(r"np\.prod\(p\) for p in itertools\.product\(\*\[f\[1\] for f in tensor_factors\[cell_name\]\]\)", s)):
-        res.fail(key, "tensor-product points/weights are not the Cartesian product of the 1D rule", ru.line(cq.node))
-    if not (re.search(r"create_quadrature\('interval', degree, rule, elements\) for _ in range\(2\)", s) and re.search(r"create_quadrature\('interval', degree, rule, elements\) for _ in range\(3\)", s)):
-        res.fail(key, "the 1D factors are not one interval rule per direction (2 for quadrilaterals, 3 for hexahedra) of the requested degree", ru.line(cq.node))
+    # (the rule builder ignores the option for non-cell integrals - quadrature matrix above - so the caller need not filter)
     # ---- part = diagonal: every test of the option is conjoined with / dominated by a rank-2 test
     sites = [
         ("ffcx.codegeneration.jit", "compile_forms", r"p\['part'\] == 'diagonal'", r"arity == 2"),
